@@ -105,13 +105,17 @@ pub struct Out {
     pub maxima: BTreeMap<String, f64>,
     pub samples: Vec<String>,
     pub oracle_evals: u64,
+    /// substrings that mark a failure as belonging to a listed known finding (written by ./check from known_findings.json): such failures
+    /// are kept in their own small bucket so that they can never crowd a different failure of the same clause out of the report
+    pub known_markers: Vec<String>,
 }
 impl Out {
     pub fn new(prop: &str, dir: &str) -> Self {
         std::fs::create_dir_all(dir).unwrap();
         let f = std::fs::File::create(format!("{}/{}.cases", dir, prop)).unwrap();
         Out { prop: prop.into(), cases: std::io::BufWriter::with_capacity(1 << 20, f), n_cases: 0, fails: vec![], n_fail_total: 0,
-              counters: BTreeMap::new(), maxima: BTreeMap::new(), samples: vec![], oracle_evals: 0 }
+              counters: BTreeMap::new(), maxima: BTreeMap::new(), samples: vec![], oracle_evals: 0,
+              known_markers: std::fs::read_to_string(format!("{}/known_markers.txt", dir)).map(|t| t.lines().filter(|l| !l.is_empty()).map(|l| l.to_string()).collect()).unwrap_or_default() }
     }
     /// a line for the model driver: `<op> <config..> | <inputs..> | <impl outputs..>`
     pub fn case(&mut self, line: &str) {
@@ -132,8 +136,11 @@ impl Out {
         self.oracle_evals += 1;
         if !ok {
             self.n_fail_total += 1;
-            let per = self.fails.iter().filter(|(c, _)| c == clause).count();
-            if per < 8 { self.fails.push((clause.to_string(), detail())); }
+            let d = detail();
+            let text = format!("{} | {}", clause, d);
+            let known = self.known_markers.iter().any(|m| text.contains(m.as_str()));
+            let per = self.fails.iter().filter(|(c, dd)| c == clause && self.known_markers.iter().any(|m| format!("{} | {}", c, dd).contains(m.as_str())) == known).count();
+            if per < (if known { 3 } else { 8 }) { self.fails.push((clause.to_string(), d)); }
         }
     }
     pub fn finish(mut self, dir: &str, extra: &str) {
